@@ -41,6 +41,9 @@ structure Cfg where
   /-- `None`, or arbitrary user code: it receives the exception and the WORLD (it may call other
       catch()-protected code, log, …) and may itself raise -/
   onerror : Option (Exc → G → Option Exc × G)
+  /-- `bool(onerror)` is False although it is a callable (an object whose `__len__()` is 0 or whose
+      `__bool__()` is False); irrelevant for the code as it is (`onerror is not None`) -/
+  onerrorFalsy : Bool := false
 
 /-- a catch()-decorated plain function (e.g. a `__repr__`) that is called while a record is being
     formatted / emitted; `out` is what its undecorated body does -/
@@ -125,6 +128,15 @@ def logCall (exitF : ExitF) (env : Env) (level depth : Nat) (e : Exc) (g : G) : 
       | (r, g') => g'.push (.probe r)) g1
   (env.logRaises e, g2)
 
+/-- the callback `__exit__` will call, given the test that guards the call -/
+def onerrorToCall (t : OnerrorTest) (cfg : Cfg) : Option (Exc → G → Option Exc × G) :=
+  match cfg.onerror with
+  | none => none
+  | some f =>
+    match t with
+    | .isNotNone => some f
+    | .truthy => if cfg.onerrorFalsy then none else some f
+
 /-- `Catcher.__exit__(type_, value, traceback_)` -/
 def exitCore (logF : Nat → Nat → Exc → G → Option Exc × G) (cfg : Cfg) (depth : Nat)
     (e : Option Exc) (g : G) : ExitRes × G :=
@@ -139,7 +151,7 @@ def exitCore (logF : Nat → Nat → Exc → G → Option Exc × G) (cfg : Cfg) 
       match lr with
       | some x' => (.raise x', g3)
       | none =>
-        match cfg.onerror with
+        match onerrorToCall Gen.onerrorTest cfg with
         | none => (if Gen.exitReturn cfg.reraise then .suppress else .propagate, g3)
         | some f =>
           let g4 := g3.push (.onerror x)              -- called with the guard flag already reset
